@@ -242,4 +242,226 @@ Proof.
   - intros ->. exact N3.
 Qed.
 
+(* ---------- functions ---------- *)
+Lemma args_inv i i1 i2 o o2 : opt (many1 lf (fld lf df)) i = POk i1 o -> opt (p_blank lf) i1 = POk i2 o2 -> i2 <> [] -> nb i2 = true ->
+  exists b0 fs, i = pr_blank b0 (pr_fields fs i2) /\ unwrap_or_default o = map erase_field fs /\ wf_blank b0 = true /\
+                (ok_fields fs = true -> wf_fields fs = true).
+Proof.
+  intros E1 E2 Hne Hnb. apply opt_inv in E1. destruct E1 as [[l [-> E1]]|[-> [-> _]]].
+  - destruct (frun1_inv _ _ _ _ _ E1 E2 Hne Hnb) as [b0 [fs [-> [-> [W0 [Wf _]]]]]]. exists b0, fs. auto.
+  - destruct (oblank_inv _ _ _ _ E2) as [b0 [-> [K0 _]]]. exists b0, []. cbn [pr_fields map unwrap_or_default]. repeat split.
+    apply (blank_ok_nonnil _ _ K0 Hne).
+Qed.
+
+Definition ok_throws (t : option cthrows) : bool := match t with Some t => ok_fields (th_fields t) | None => true end.
+
+Lemma throws_group_inv i i1 i2 o o2 : opt (p_throws lf df) i = POk i1 o -> opt (p_blank lf) i1 = POk i2 o2 -> noblank i ->
+  exists th : option cthrows, i = pr_throws th i2 /\
+    unwrap_or_default o = match th with Some t => map erase_field (th_fields t) | None => [] end /\
+    (i2 <> [] -> ok_throws th = true -> wf_throws th = true) /\ noblank i2 /\ (th = None -> i2 = i).
+Proof.
+  intros E1 E2 Hn. apply opt_inv in E1. destruct E1 as [[l [-> E1]]|[-> [-> _]]].
+  - unfold p_throws in E1. binv E1. inversion E1; subst. apply tag_inv in E. destruct E as [-> _].
+    destruct (oblank_inv _ _ _ _ E0) as [t1 [-> [K1 _]]]. apply tag_inv in E3. destruct E3 as [-> _]. apply tag_inv in E6. destruct E6 as [-> _].
+    destruct (frun1_inv _ _ _ _ _ E4 E5 ltac:(discriminate) eq_refl) as [t0 [fs [-> [-> [W0 [Wf Hne]]]]]].
+    destruct (oblank_inv _ _ _ _ E2) as [t2 [-> [K2 [N2 _]]]].
+    exists (Some (mkCThrows t1 t0 fs t2)). cbn [pr_throws th_b1 th_b0 th_fields th_b2 unwrap_or_default ok_throws wf_throws].
+    change kw_throws with (txt "throws"). change sym_throws_open with (txt "("). change sym_throws_close with (txt ")").
+    repeat split; auto; try discriminate.
+    intros Hr Hok. rewrite (blank_ok_nonnil _ _ K1) by discriminate. rewrite W0, (Wf Hok), (blank_ok_nonnil _ _ K2 Hr).
+    destruct fs; [contradiction|reflexivity].
+  - destruct (noblank_oblank _ _ _ _ Hn E2) as [-> _]. exists None. repeat split; auto.
+Qed.
+
+Definition ok_function (f : cfunction) : bool :=
+  match fn_coneway f with Some _ => true | None => head_not_in (fn_type f) [txt "oneway"; txt "throws"] end &&
+  heads_ok_type (fn_type f) && ok_fields (fn_args f) && ok_throws (fn_cthrows f).
+
+Lemma pr_throws_nonnil th k : k <> [] -> pr_throws th k <> [].
+Proof. destruct th; cbn [pr_throws]; [discriminate|auto]. Qed.
+Lemma pr_oanns_nonnil a k : k <> [] -> pr_oanns a k <> [].
+Proof. destruct a; cbn [pr_oanns]; [unfold pr_anns; discriminate|auto]. Qed.
+
+Theorem function_inv i r a : p_function lf df i = POk r a ->
+  exists f, i = pr_function f r /\ erase_function f = a /\ (r <> [] -> ok_function f = true -> wf_function f = true) /\
+            (function_closed f = false -> noblank r) /\ whead (pr_function f r).
+Proof.
+  rewrite p_function_eq. intros H. binv H. inversion H; subst.
+  apply pmap_ok in E. destruct E as [oo [E ->]].
+  destruct (type_inv _ _ _ _ _ E0) as [t [Et [<- [Wt [_ Ht]]]]]. destruct (blank_inv _ _ _ _ E1) as [b1 [-> [N1 [K1 _]]]].
+  destruct (ident_inv _ _ _ E2) as [-> [Hname _]]. destruct (oblank_inv _ _ _ _ E3) as [b2 [-> [K2 _]]].
+  apply tag_inv in E4. destruct E4 as [-> _]. apply tag_inv in E7. destruct E7 as [-> _].
+  destruct (args_inv _ _ _ _ _ E5 E6 ltac:(discriminate) eq_refl) as [b0 [args [-> [Eargs [W0 Wargs]]]]].
+  destruct (oblank_inv _ _ _ _ E8) as [b3 [-> [K3 [N3 _]]]].
+  destruct (throws_group_inv _ _ _ _ _ E9 E10 N3) as [th [-> [Eth [Wth [Nth Hthn]]]]].
+  destruct (oanns_inv _ _ _ _ E11) as [an [-> [<- [Wa Han]]]]. destruct (osep_inv _ _ _ _ E12) as [sp [-> Hs]].
+  (* the optional oneway *)
+  assert (Eow : exists ow : option blank, i = match ow with Some b => txt "oneway" ++ pr_blank b i0 | None => i0 end /\
+                  is_some oo = negb (is_none ow) /\ match ow with Some b => wf_blank b = true /\ b <> [] | None => True end).
+  { apply opt_inv in E. destruct E as [[u [-> E]]|[-> [-> _]]].
+    - unfold p_oneway in E. apply pbind_ok in E. destruct E as [j [tt0 [T B]]]. apply tag_inv in T. destruct T as [-> _].
+      destruct (blank_inv _ _ _ _ B) as [b [-> [Nb [Kb _]]]]. exists (Some b). repeat split; auto.
+      apply (blank_ok_nonnil _ _ Kb). rewrite Et. apply whead_nonnil, Ht.
+    - exists None. repeat split. }
+  destruct Eow as [ow [-> [Eoo Wow]]]. subst i0.
+  eexists (mkCFunction ow t b1 _ b2 b0 args b3 th an sp). unfold erase_function, wf_function, function_closed, ok_function.
+  cbn [fn_coneway fn_type fn_b1 fn_cname fn_b2 fn_b0 fn_args fn_b3 fn_cthrows fn_canns fn_sep].
+  change sym_fn_open with (txt "(") in *. change sym_fn_close with (txt ")") in *.
+  split; [unfold pr_function; cbn [fn_coneway fn_type fn_b1 fn_cname fn_b2 fn_b0 fn_args fn_b3 fn_cthrows fn_canns fn_sep]; destruct ow; reflexivity|].
+  split; [rewrite Eoo, Eargs, Eth; f_equal; destruct an; reflexivity|]. split; [|split].
+  - intros Hr Hok. bsplit Hok.
+    assert (RS : pr_sep sp r <> []) by now apply pr_sep_nonnil.
+    assert (RA : pr_oanns an (pr_sep sp r) <> []) by now apply pr_oanns_nonnil.
+    assert (RT : pr_throws th (pr_oanns an (pr_sep sp r)) <> []) by now apply pr_throws_nonnil.
+    rewrite (Wt ltac:(assumption)), (blank_ok_nonnil _ _ K1) by (now apply nonnil_app_ident).
+    rewrite Hname, (blank_ok_nonnil _ _ K2) by discriminate. rewrite W0, (Wargs ltac:(assumption)), (blank_ok_nonnil _ _ K3 RT).
+    rewrite (Wth RA ltac:(assumption)), Wa, (wf_sep_of sp r Hs Hr).
+    destruct b1; [contradiction|]. cbn [is_nil negb andb]. rewrite !andb_true_r.
+    destruct ow as [bo|]; [destruct Wow as [-> Hne]; destruct bo; [contradiction|reflexivity]|assumption].
+  - intros Hc. destruct sp as [|semi bl]; cbn [sep_ok sep_none] in *; [|tauto].
+    destruct an; [discriminate|]. cbn [pr_oanns pr_sep] in Nth. exact Nth.
+  - unfold pr_function. cbn [fn_coneway fn_type fn_b1 fn_cname fn_b2 fn_b0 fn_args fn_b3 fn_cthrows fn_canns fn_sep].
+    destruct ow; [eexists _, _; split; reflexivity|exact Ht].
+Qed.
+
+(* ---------- services ---------- *)
+Definition fnel : Type := (blank * cfunction)%type.
+Definition pr_fnel (e : fnel) (r : list byte) : list byte := pr_blank (fst e) (pr_function (snd e) r).
+Definition fnQ (e : fnel) (r : list byte) : Prop :=
+  blank_ok (fst e) (pr_function (snd e) r) /\ (r <> [] -> ok_function (snd e) = true -> wf_function (snd e) = true) /\
+  (function_closed (snd e) = false -> noblank r) /\ whead (pr_function (snd e) r) /\ (noblank (pr_fnel e r) -> fst e = []).
+
+Lemma fnp_inv i r f : fnp lf df i = POk r f -> exists e : fnel, i = pr_fnel e r /\ erase_function (snd e) = f /\ fnQ e r.
+Proof.
+  unfold fnp. intros H. apply pbind_ok in H. destruct H as [i0 [o [E H]]]. destruct (oblank_inv _ _ _ _ E) as [bl [Ei [Kb [_ Hnone]]]].
+  destruct (function_inv _ _ _ H) as [c [-> [<- [Hw [Hn Hh]]]]].
+  exists (bl, c). unfold fnQ, pr_fnel. cbn [fst snd]. repeat split; auto.
+  intros Hnb. rewrite <- Ei in Hnb. destruct (noblank_oblank _ _ _ _ Hnb E) as [_ ->]. auto.
+Qed.
+
+Lemma pr_fnel_len e r : length r <= length (pr_fnel e r).
+Proof. unfold pr_fnel. apply sfx_len. apply sfx_blank, sfx_function, sfx_refl. Qed.
+Lemma prl_fnel_nonnil es k : k <> [] -> prl pr_fnel es k <> [].
+Proof.
+  intros Hk. induction es as [|e es IH]; cbn [prl fold_right]; [exact Hk|]. fold (prl pr_fnel es k).
+  pose proof (pr_fnel_len e (prl pr_fnel es k)). destruct (prl pr_fnel es k); [contradiction|].
+  destruct (pr_fnel e (b :: l)); [cbn in *; lia|discriminate].
+Qed.
+Lemma prl_fns l k : prl pr_fnel l k = pr_fns l k.
+Proof. induction l as [|[b f] l IH]; cbn [prl fold_right pr_fns]; [reflexivity|]. fold (prl pr_fnel l k). now rewrite IH. Qed.
+
+Lemma chain_fns : forall l pc k, k <> [] -> chain pr_fnel fnQ l k -> (pc = false -> noblank (prl pr_fnel l k)) ->
+  (forallb (fun e : fnel => ok_function (snd e)) l = true -> wf_fns pc l = true) /\ (last_closed pc l = false -> noblank k).
+Proof.
+  induction l as [|[b f] l IH]; intros pc k Hk Hc Hpc; cbn [chain forallb wf_fns last_closed snd] in *.
+  - split; [reflexivity|exact Hpc].
+  - destruct Hc as [[Kb [Hw [Hcl [Hh Hnil]]]] Hc]. cbn [fst snd] in *. fold (prl pr_fnel l k) in *.
+    destruct (IH (function_closed f) k Hk Hc Hcl) as [Wr Hlast]. split; [|exact Hlast].
+    intros Hok. bsplit Hok. rewrite (blank_ok_nonnil _ _ Kb (whead_nonnil _ Hh)), (Hw (prl_fnel_nonnil l k Hk) ltac:(assumption)), (Wr ltac:(assumption)).
+    rewrite andb_true_r. cbn [andb]. destruct pc; [reflexivity|]. cbn [orb]. rewrite (Hnil (Hpc eq_refl)). reflexivity.
+Qed.
+
+Theorem service_inv i r a : p_service lf df i = POk r a ->
+  exists c, i = pr_service c r /\ erase_service c = a /\
+            (forallb (fun e : fnel => ok_function (snd e)) (sv_fns c) = true -> wf_service (is_nil r) c = true) /\
+            (tail_open (sv_tail c) = true -> noblank r).
+Proof.
+  rewrite p_service_eq. intros H. binv H. inversion H; subst.
+  apply tag_inv in E. destruct E as [-> _]. destruct (blank_inv _ _ _ _ E0) as [b1 [-> [N1 [K1 _]]]].
+  destruct (ident_inv _ _ _ E1) as [-> [Hname _]].
+  destruct (oblank_inv _ _ _ _ E3) as [b2 [Eb2 [K2 _]]]. apply tag_inv in E4. destruct E4 as [-> _].
+  apply (many0_inv (fnp lf df) (fun e : fnel => erase_function (snd e)) pr_fnel fnQ fnp_inv) in E5.
+  destruct E5 as [fns [-> [<- [Hc _]]]]. destruct (oblank_inv _ _ _ _ E6) as [b3 [-> [K3 [_ Hnone3]]]].
+  apply tag_inv in E7. destruct E7 as [-> _].
+  destruct (tail_inv _ _ _ _ _ _ _ _ E8 E9 E10) as [tl [-> [Ean [Wtl [Hop [_ _]]]]]].
+  set (K := pr_blank b3 (sym_service_close ++ pr_tail tl r)) in *.
+  assert (Kne : K <> []).
+  { unfold K. pose proof (len_blank b3 (sym_service_close ++ pr_tail tl r)) as L. intros Ex. rewrite Ex in L. cbn in L. lia. }
+  destruct (chain_fns fns true K Kne Hc ltac:(discriminate)) as [Wfns Hlast].
+  assert (Hb3 : last_closed true fns || is_nil b3 = true).
+  { destruct (last_closed true fns) eqn:El; [reflexivity|]. cbn [orb]. specialize (Hlast eq_refl).
+    unfold K in Hlast. destruct (noblank_oblank _ _ _ _ Hlast E6) as [_ Eo]. rewrite (Hnone3 Eo). reflexivity. }
+  (* extends *)
+  assert (Eext : forall v, opt (p_extends lf) i2 = POk i3 v -> exists ext : option (blank * blank * cpath), i2 = pr_extends ext i3 /\
+                   v = match ext with Some (_, _, p) => Some (erase_path p) | None => None end /\ wf_extends ext = true).
+  { clear. intros v E2. apply opt_inv in E2. destruct E2 as [[pth [-> E2]]|[-> [-> _]]].
+    - unfold p_extends in E2. apply pbind_ok in E2. destruct E2 as [j1 [u1 [E E2]]]. apply pbind_ok in E2. destruct E2 as [j2 [u2 [E0 E2]]].
+      apply pbind_ok in E2. destruct E2 as [j3 [u3 [E1 E2]]].
+      destruct (blank_inv _ _ _ _ E) as [e1 [-> [Ne1 [Ke1 _]]]]. apply tag_inv in E0. destruct E0 as [-> _].
+      destruct (blank_inv _ _ _ _ E1) as [e2 [-> [Ne2 [Ke2 _]]]]. destruct (path_inv _ _ _ _ E2) as [p [-> [<- [Wp _]]]].
+      exists (Some (e1, e2, p)). cbn [pr_extends wf_extends]. change kw_extends with (txt "extends"). repeat split.
+      rewrite (blank_ok_nonnil _ _ Ke1) by discriminate. rewrite Wp.
+      assert (Pn : pr_path p i3 <> []).
+      { unfold pr_path. unfold wf_path in Wp. apply andb_prop in Wp. destruct Wp as [Wh _]. destruct (cp_head p); [discriminate Wh|discriminate]. }
+      rewrite (blank_ok_nonnil _ _ Ke2 Pn). destruct e1; [contradiction|]. destruct e2; [contradiction|]. reflexivity.
+    - exists None. repeat split. }
+  destruct (Eext _ E2) as [ext [Ei2 [Ev Wext]]]. subst i2. rewrite Ev in *. clear Eext.
+  subst i3. rewrite prl_fns in *.
+  eexists (mkCService b1 _ ext b2 fns b3 tl). unfold pr_service, erase_service, wf_service.
+  cbn [sv_b1 sv_cname sv_cextends sv_b2 sv_fns sv_b3 sv_tail]. change kw_service with (txt "service").
+  change sym_service_open with (txt "{") in *. change sym_service_close with (txt "}") in *. rewrite Ean.
+  split; [reflexivity|]. split; [reflexivity|]. split; [|exact Hop].
+  intros Hok. rewrite (blank_ok_nonnil _ _ K1) by (now apply nonnil_app_ident). rewrite Hname, Wext, (blank_ok_nonnil _ _ K2) by discriminate.
+  rewrite (Wfns Hok), (blank_ok_nonnil _ _ K3) by discriminate. rewrite Hb3, Wtl.
+  destruct b1; [contradiction|]. reflexivity.
+Qed.
+
+(* ---------- include / cpp_include / namespace ---------- *)
+Lemma include_gen_inv (p : parser Literal) kw i r l :
+  (forall i, p i = (do i, _ <- tag kw i ;; do i, _ <- p_blank lf i ;; do i, x <- p_literal lf i ;;
+                    do i, _ <- opt (p_list_separator lf) i ;; POk i x)) ->
+  p i = POk r l ->
+  exists b cl s, i = kw ++ pr_blank b (pr_lit cl (pr_sep s r)) /\ erase_lit cl = l /\
+                 wf_blank b = true /\ b <> [] /\ wf_lit cl = true /\ wf_sep_at (is_nil r) s = true /\ (sep_none s = false -> noblank r).
+Proof.
+  intros Hp H. rewrite Hp in H. binv H. inversion H; subst. apply tag_inv in E. destruct E as [-> _].
+  destruct (blank_inv _ _ _ _ E0) as [b [-> [Nb [Kb _]]]]. destruct (literal_inv _ _ _ _ E1) as [cl [-> [<- Wl]]].
+  destruct (osep_inv _ _ _ _ E2) as [s [-> Hs]]. exists b, cl, s. repeat split; auto.
+  - apply (blank_ok_nonnil _ _ Kb). unfold pr_lit. discriminate.
+  - now apply wf_sep_at_of.
+  - destruct s; cbn [sep_none sep_ok] in *; [discriminate|tauto].
+Qed.
+
+Lemma scope_tags_words : forallb (fun s => bytes_in s scope_words) scope_tags = true.
+Proof. vm_compute. reflexivity. Qed.
+
+Lemma alt_tags_inv : forall ts i r s, alt (map tag ts) i = POk r s -> In s ts /\ i = s ++ r.
+Proof.
+  induction ts as [|t ts IH]; intros i r s H; [discriminate|]. destruct ts as [|t' ts'].
+  - cbn [map] in H. apply alt_one_inv in H. apply tag_inv in H. destruct H as [-> ->]. split; [left; reflexivity|reflexivity].
+  - cbn [map] in H. apply alt_cons_inv in H. destruct H as [H|[_ H]].
+    + apply tag_inv in H. destruct H as [-> ->]. split; [left; reflexivity|reflexivity].
+    + destruct (IH _ _ _ H) as [Hin E]. split; [right; exact Hin|exact E].
+Qed.
+
+Theorem namespace_inv i r a : p_namespace lf i = POk r a ->
+  exists c, i = pr_namespace c r /\ erase_namespace c = a /\ wf_namespace (is_nil r) c = true /\ noblank r /\
+            (is_nil (ns_b3 c) && is_none (ns_canns c) && sep_none (ns_sep c) = true -> nid r = true).
+Proof.
+  unfold p_namespace. intros H. binv H. inversion H; subst. cbn beta in *. apply tag_inv in E. destruct E as [-> _].
+  apply pbind_ok in E0. destruct E0 as [j1 [u1 [B1 T1]]]. apply pbind_ok in E1. destruct E1 as [j2 [u2 [B2 T2]]].
+  destruct (blank_inv _ _ _ _ B1) as [b1 [-> [N1 [K1 _]]]]. unfold p_scope in T1. destruct (alt_tags_inv _ _ _ _ T1) as [Hin ->].
+  destruct (blank_inv _ _ _ _ B2) as [b2 [-> [N2 [K2 _]]]]. destruct (path_inv _ _ _ _ T2) as [p [-> [<- [Wp [_ Hnid]]]]].
+  destruct (oblank_inv _ _ _ _ E2) as [b3 [-> [K3 [N3 _]]]].
+  destruct (tail2_inv _ _ _ _ _ _ _ _ E3 E4 E5 N3) as [an [sp [-> [-> [Wt2 [Nr [_ Hbare]]]]]]].
+  match type of Hin with In ?sc _ => set (scp := sc) in * end.
+  assert (Hsc : bytes_in scp scope_words = true).
+  { pose proof scope_tags_words as F. rewrite forallb_forall in F. exact (F scp Hin). }
+  assert (Sn : scp <> []).
+  { intros Ex. rewrite Ex in Hin. revert Hin. clear. unfold scope_tags. cbn [In]. intros H. repeat (destruct H as [H|H]; [discriminate H|]). exact H. }
+  exists (mkCNamespace b1 scp b2 p b3 an sp). unfold pr_namespace, erase_namespace, wf_namespace.
+  cbn [ns_b1 ns_cscope ns_b2 ns_path ns_b3 ns_canns ns_sep]. change kw_namespace with (txt "namespace").
+  split; [reflexivity|]. split; [reflexivity|]. split; [|split; [exact Nr|]].
+  - rewrite (blank_ok_nonnil _ _ K1) by (clearbody scp; destruct scp; [contradiction|discriminate]). rewrite Hsc, Wp, Wt2.
+    assert (Pn : pr_path p (pr_blank b3 (pr_tail2 an sp r)) <> []).
+    { unfold pr_path. unfold wf_path in Wp. apply andb_prop in Wp. destruct Wp as [Wh _]. destruct (cp_head p); [discriminate Wh|discriminate]. }
+    rewrite (blank_ok_nonnil _ _ K2 Pn). destruct b1; [contradiction|]. destruct b2; [contradiction|]. cbn [is_nil negb andb]. rewrite !andb_true_r.
+    destruct an as [[l bl]|]; [|destruct sp as [|semi bs]]; cbn [is_none sep_none andb pr_tail2 pr_sep] in *; rewrite ?andb_false_r, ?andb_true_r.
+    + apply (blank_ok_nonnil _ _ K3). unfold pr_anns. discriminate.
+    + now apply blank_ok_wfb.
+    + apply (blank_ok_nonnil _ _ K3). discriminate.
+  - intros Hb. bsplit Hb. apply is_nil_true in Hb. subst b3. destruct an; [discriminate|]. destruct sp; [|discriminate].
+    cbn [pr_blank pr_tail2 pr_sep] in Hnid. exact Hnid.
+Qed.
+
 End Items.
